@@ -203,7 +203,7 @@ def ctor(ctx, fi):
     for h in tr.handlers:
       if h.type is None or (dotted(h.type) or '') in ('Exception', 'BaseException'):
         rs = [x for x in h.body if isinstance(x, ast.Raise)]
-        conv = len(rs) == 1 and rs[0].exc is not None and isinstance(rs[0].exc, ast.Call) and (dotted(rs[0].exc.func) or '').split('.')[-1] in ALLOWED and h.body[-1] is rs[0]
+        conv = len(rs) == 1 and rs[0].exc is not None and isinstance(rs[0].exc, ast.Call) and U.raised_class(fi.module, rs[0].exc)[0] in ALLOWED and h.body[-1] is rs[0]
   ctx.ob('CTOR/converted', fi, tr or c, conv, 'the handler re-raises MIDIConversionError' if conv else
          'the catch-all handler does not end by raising MIDIConversionError (it swallows or re-raises the original)')
 
@@ -310,7 +310,14 @@ def wrappers(ctx):
     # the file object is whatever name the `with open(...) as <name>` binds
     fobj = [it.optional_vars.id for w_ in ast.walk(fi.node) if isinstance(w_, ast.With) for it in w_.items
             if isinstance(it.optional_vars, ast.Name) and isinstance(it.context_expr, ast.Call) and dotted(it.context_expr.func) == 'open']
-    extra = [c for c in calls if c not in (target, 'open') and c not in ['%s.read' % n_ for n_ in fobj]]
+    # a module-level helper that only opens, reads and closes a file is the same file access moved into a function
+    def _file_reader(nm):
+      h = fi.module.functions.get(nm)
+      if h is None or any(isinstance(x, ast.Raise) for x in ast.walk(h.node)):
+        return False
+      hc = [dotted(c.func) or '' for c in U.calls_in(h.node)]
+      return bool(hc) and all(c in ('open', 'io.open') or c.endswith('.read') or c.endswith('.close') for c in hc)
+    extra = [c for c in calls if c not in (target, 'open', 'io.open') and c not in ['%s.read' % n_ for n_ in fobj] and not _file_reader(c)]
     raises = [n for n in ast.walk(fi.node) if isinstance(n, ast.Raise)]
     ok = target in calls and not extra and not raises
     ctx.ob('ESC/wrapper', fi, fi.node, ok, '%s only reads the file and delegates to %s' % (name, target) if ok else
